@@ -832,6 +832,8 @@ class Analysis:
         inside = defaultdict(lambda: defaultdict(int))    # async node -> md id -> count
         latest_hold = {}
         twu = {}
+        open_outs = []
+        seen_kids = {}
         open_ins = []
         open_acts = {}
         failed_elems = set()
@@ -898,6 +900,8 @@ class Analysis:
             if k == 'in':
                 i = ins_by_seq[seq]
                 open_ins.append(i)
+                if i.via is not None:
+                    seen_kids[i.via.seq] = seen_kids.get(i.via.seq, 0) + 1
                 nid = i.node
                 if nid in ms:
                     pass     # pushed at in_ret / in_exc (needs own_fail), see below
@@ -929,8 +933,12 @@ class Analysis:
                 f = flush_by_seq[seq]
                 if f.node in ms:
                     ms[f.node].flush()
+            elif k == 'out_ret':
+                if open_outs:
+                    open_outs.pop()
             elif k == 'out':
                 o = outs_by_seq[seq]
+                open_outs.append(o)
                 if o.node in twu:
                     twu[o.node] = {}
                 if o.node in inside:
@@ -993,6 +1001,15 @@ class Analysis:
                                 if any(x[0] == elem for x in i.md):
                                     why = 'update of node %d carrying it is still running' % i.node
                                     break
+                        if why is None:
+                            # an emission in progress that has not reached all attached branches yet
+                            for o in open_outs:
+                                if any(x[0] == elem for x in o.md):
+                                    kids = [c for c in self.children.get(o.node, []) if not self.slice_ended(c, o.seq)]
+                                    if seen_kids.get(o.seq, 0) < len(kids):
+                                        why = 'node %d is still delivering it: %d of its %d branches have not received it yet' % (
+                                            o.node, len(kids) - seen_kids.get(o.seq, 0), len(kids))
+                                        break
                         if why:
                             V.append(Violation('C04', 'C04.early_callback', seq,
                                                'completion callback of element %d triggered at t=%g while it is %s' % (elem, e[1], why)))
